@@ -159,7 +159,7 @@ func runC08(c *Ctx) {
 			if o != "frame.V1Frame" && o != "frame.V2Frame" && o != "message.MessageRaw" {
 				continue
 			}
-			if !edgeMustPass(rf.fn, edge{rf.mpIf.Block(), rf.mpIf.Block().Succs[0]}, st.Block()) {
+			if !edgeMustPass(rf.fn, edge{rf.mpIf.Block(), rf.mpIf.Block().Succs[rf.mpIdx]}, st.Block()) {
 				bad = c.Pos(st.Pos())
 			}
 		}
@@ -343,9 +343,10 @@ func runC08(c *Ctx) {
 			}
 			n++
 			a := ci.Common().Args
-			isv2 := ex(a[2])
-			frame := strings.TrimSuffix(isv2, ".(*frame.V2Frame)?#1")
-			ok := strings.HasSuffix(isv2, ".(*frame.V2Frame)?#1") && ex(a[1]) == "(frame.Frame).GetMessage("+frame+")"
+			frame := versionOfFrame(fn, ci, a[2])
+			// the message of that very frame: through the interface getter or the typed frame's field
+			msgArg := ex(a[1])
+			ok := frame != "" && (msgArg == "(frame.Frame).GetMessage("+frame+")" || msgArg == frame+".(*frame.V1Frame)?#0.Message" || msgArg == frame+".(*frame.V2Frame)?#0.Message")
 			mp := ex(a[0])
 			// the codec looked up in the writer's / node's dialect by the id of this very frame's message
 			okMp := mp == "arg1" || (strings.HasPrefix(mp, "(dialect.ReadWriter).GetMessage(recv.") &&
